@@ -203,4 +203,131 @@ theorem exGraph_ifaceNamed : IfaceNamed exAgg := ifaceNamedCheck_sound (by decid
 example : core (wiring exSkel) = core (specWiring exGraph true (others exGraph exOrder)) :=
   wiring_encode exGraph_wf exGraph_toposort exGraph_agg exGraph_ifaceNamed exGraph_encode
 
+/-! #### a diamond with sharing, an alias of an alias, two versions of one interface
+
+  packages `base` (no imports), `left` (imports `a`, `x:y/i@1.2.0`), `right` (imports `a`,
+  `x:y/i@1.0.0`), `join` (imports `l`, `r`); nodes: 0 = instantiate `base`, 1 = alias `out` of 0
+  (an instance), 2 = alias `inner` of 1 (alias of an alias), 3 = instantiate `right` with `a` ← 2,
+  4 = instantiate `left` with `a` ← 2, 5 = instantiate `join` with `r` ← 3 and `l` ← 4, exported
+  as `out`.  The interface imports of `left` and `right` stay implicit: one shared import, named
+  for the higher version. -/
+
+def dI10 : Str := ['x', ':', 'y', '/', 'i', '@', '1', '.', '0', '.', '0']
+def dI12 : Str := ['x', ':', 'y', '/', 'i', '@', '1', '.', '2', '.', '0']
+
+def exDiamond : GraphVal :=
+  { pkgs := [
+      { slot := 0, name := ['t', ':', 'b'], version := none, bytesId := 0, imports := [] },
+      { slot := 1, name := ['t', ':', 'l'], version := none, bytesId := 1,
+        imports := [{ name := ['a'], ty := { kind := .func } },
+                    { name := dI12, ty := { kind := .instance, iface := some dI12 } }] },
+      { slot := 2, name := ['t', ':', 'r'], version := some ['0', '.', '3', '.', '0'], bytesId := 2,
+        imports := [{ name := ['a'], ty := { kind := .func } },
+                    { name := dI10, ty := { kind := .instance, iface := some dI10 } }] },
+      { slot := 3, name := ['t', ':', 'j'], version := none, bytesId := 3,
+        imports := [{ name := ['l'], ty := { kind := .instance } }, { name := ['r'], ty := { kind := .instance } }] }],
+    nodes := [
+      { id := 0, kind := .instantiation 0 [], ty := { kind := .instance }, name := some ['b'], succ := [1] },
+      { id := 1, kind := .alias, ty := { kind := .instance }, inc := [(.alias ['o', 'u', 't'], 0)], succ := [2] },
+      { id := 2, kind := .alias, ty := { kind := .func }, name := some ['f'],
+        inc := [(.alias ['i', 'n', 'n', 'e', 'r'], 1)], succ := [4, 3] },
+      { id := 3, kind := .instantiation 2 [0], ty := { kind := .instance }, inc := [(.arg 0 ['a'], 2)], succ := [5] },
+      { id := 4, kind := .instantiation 1 [0], ty := { kind := .instance }, inc := [(.arg 0 ['a'], 2)], succ := [5] },
+      { id := 5, kind := .instantiation 3 [0, 1], ty := { kind := .instance },
+        inc := [(.arg 1 ['r'], 3), (.arg 0 ['l'], 4)] }],
+    exports := [(['o', 'u', 't'], 5)] }
+
+def exDiamondOrder : List Nat := [0, 1, 2, 3, 4, 5]
+def exDiamondAgg : Agg :=
+  { imports := [(dI12, { kind := .instance, iface := some dI12 })],
+    redirects := [(dI10, dI12)],
+    ifaces := [dI12] }
+def exDiamondSkel : Skeleton :=
+  match encode exDiamond { define := true } with
+  | .ok s => s
+  | _ => []
+
+theorem exDiamond_wf : WF exDiamond := wfCheck_sound (by decide)
+theorem exDiamond_toposort : toposort exDiamond = .ok exDiamondOrder := by decide
+theorem exDiamond_agg : aggOf exDiamond (importsOf exDiamond exDiamondOrder) = some exDiamondAgg := by decide
+theorem exDiamond_ifaceNamed : IfaceNamed exDiamondAgg := ifaceNamedCheck_sound (by decide)
+theorem exDiamond_encode : encode exDiamond { define := true } = .ok exDiamondSkel := by rfl
+
+/-- the hypotheses of `wiring_encode` hold for the diamond; its conclusion is not trivial: the
+    `x:y/i@1.0.0` argument of `right` and the `x:y/i@1.2.0` argument of `left` are both the one
+    import `x:y/i@1.2.0` (= `canon`), both get the same alias of an alias as `a` -/
+example :
+    core (wiring exDiamondSkel) = core (specWiring exDiamond true (others exDiamond exDiamondOrder)) ∧
+    canon exDiamond dI10 = dI12 ∧
+    ((wiring exDiamondSkel).insts.map fun i => i.args.map (·.2.2)) =
+      [[],
+       [.aliasOf (.aliasOf (.inst 0) ['o', 'u', 't']) ['i', 'n', 'n', 'e', 'r'], .imp dI12],
+       [.aliasOf (.aliasOf (.inst 0) ['o', 'u', 't']) ['i', 'n', 'n', 'e', 'r'], .imp dI12],
+       [.inst 1, .inst 2]] ∧
+    (wiring exDiamondSkel).comps = [0, 2, 1, 3] :=
+  ⟨wiring_encode exDiamond_wf exDiamond_toposort exDiamond_agg exDiamond_ifaceNamed exDiamond_encode,
+   by decide, by decide, by decide⟩
+
+example : ∀ name ∈ impliedNames exDiamond, exDiamondAgg.canonical name = canon exDiamond name :=
+  canonical_is_canon exDiamond_wf exDiamond_toposort exDiamond_agg
+
+/-! #### `IfaceNamed` cannot be dropped (finding `enc-dependency-interface-shadows-import`)
+
+  WIT worlds of the C03 harness: `old` imports `dep:t/t@1.0.0` and `test:usr/u` (which uses
+  `dep:t/t@1.0.0`), `newv` imports `dep:t/t@1.2.0` and `test:usr/v` (which uses `dep:t/t@1.2.0`).
+  Nodes: 0 = instantiate `newv` with `dep:t/t@1.2.0` ← node 2, 1 = instantiate `old`, 2 = explicit
+  import `xi1` of the interface `dep:t/t@1.2.0`.  The implied import names are `test:usr/v`,
+  `dep:t/t@1.0.0`, `test:usr/u`, `xi1`: `dep:t/t@1.0.0` is the only implied name of its track, so
+  it is the designated import for the argument of `old`.  The encoder imports the *dependency*
+  `dep:t/t@1.2.0` of `test:usr/v` first and then takes it for the import `dep:t/t@1.0.0`
+  (`provides_interface`): the argument is wired to `dep:t/t@1.2.0` and no import is named
+  `dep:t/t@1.0.0`.  With `old` created before `newv` the import is named `dep:t/t@1.0.0`
+  (C03: the interface depends on creation order).  Replayed on the real encoder:
+  plan `pkgs [witv:old, witv:newv] nodes [Inst(0), Inst(1), Import{xi1 : witv:newv."dep:t/t@1.2.0"}]
+  args [(1, "dep:t/t@1.2.0", 2)]`, creation orders `[0,1,2]` and `[1,0,2]`. -/
+
+def cD10 : Str := ['d', 'e', 'p', ':', 't', '/', 't', '@', '1', '.', '0', '.', '0']
+def cD12 : Str := ['d', 'e', 'p', ':', 't', '/', 't', '@', '1', '.', '2', '.', '0']
+def cU : Str := ['t', 'e', 's', 't', ':', 'u', 's', 'r', '/', 'u']
+def cV : Str := ['t', 'e', 's', 't', ':', 'u', 's', 'r', '/', 'v']
+
+def exIfaceDep : GraphVal :=
+  { pkgs := [
+      { slot := 0, name := ['o', 'l', 'd'], version := none, bytesId := 0,
+        imports := [{ name := cD10, ty := { kind := .instance, iface := some cD10 } },
+                    { name := cU, ty := { kind := .instance, iface := some cU, deps := [cD10] } }] },
+      { slot := 1, name := ['n', 'e', 'w', 'v'], version := none, bytesId := 1,
+        imports := [{ name := cD12, ty := { kind := .instance, iface := some cD12 } },
+                    { name := cV, ty := { kind := .instance, iface := some cV, deps := [cD12] } }] }],
+    nodes := [
+      { id := 0, kind := .instantiation 1 [0], ty := { kind := .instance }, inc := [(.arg 0 cD12, 2)] },
+      { id := 1, kind := .instantiation 0 [], ty := { kind := .instance } },
+      { id := 2, kind := .import ['x', 'i', '1'], ty := { kind := .instance, iface := some cD12 }, succ := [0] }],
+    exports := [] }
+
+def exIfaceDepSkel : Skeleton :=
+  match encode exIfaceDep { define := true } with
+  | .ok s => s
+  | _ => []
+
+theorem exIfaceDep_encode : encode exIfaceDep { define := true } = .ok exIfaceDepSkel := by rfl
+
+/-- without `IfaceNamed` the equation is false: on this well-formed graph value the argument
+    `dep:t/t@1.0.0` of `old` is wired to the import `dep:t/t@1.2.0`, the designated import is
+    `dep:t/t@1.0.0` (the highest implied name of the track), and no import has that name -/
+theorem wiring_encode_iface_counterexample :
+    WF exIfaceDep ∧ toposort exIfaceDep = .ok [1, 2, 0] ∧
+    ¬ (core (wiring exIfaceDepSkel) = core (specWiring exIfaceDep true (others exIfaceDep [1, 2, 0]))) ∧
+    ((wiring exIfaceDepSkel).insts.map fun i => i.args.map (·.2.2)) =
+      [[.imp cD12, .imp cU], [.imp ['x', 'i', '1'], .imp cV]] ∧
+    ((specWiring exIfaceDep true (others exIfaceDep [1, 2, 0])).insts.map fun i => i.args.map (·.2.2)) =
+      [[.imp cD10, .imp cU], [.imp ['x', 'i', '1'], .imp cV]] ∧
+    (wiring exIfaceDepSkel).imports.map (·.1) = [cD12, cV, cU, ['x', 'i', '1']] ∧
+    (∀ agg, aggOf exIfaceDep (importsOf exIfaceDep [1, 2, 0]) = some agg → ¬ IfaceNamed agg) := by
+  refine ⟨wfCheck_sound (by decide), by decide, by decide, by decide, by decide, by decide, ?_⟩
+  intro agg hagg hif
+  have h := wiring_encode (wfCheck_sound (by decide)) (by decide) hagg hif exIfaceDep_encode
+  revert h
+  decide
+
 end Wac.Props.C02
